@@ -100,6 +100,7 @@ type Sim struct {
 	scn15Tried            bool
 	scnH                  int64
 	scnBurns              int
+	vmSeen                map[string]string
 	scnHash               []byte
 	scnA, scnB            *appdrv.Key
 	QuietAll              bool // scenario: every proposal gets a quiet window around its applying height
@@ -131,7 +132,7 @@ type Options struct {
 }
 
 // NumScenarios is the number of scenario templates (scenarios.go).
-const NumScenarios = 20
+const NumScenarios = 22
 
 func (s *Sim) add(r *Rec) *Rec { s.Recs = append(s.Recs, r); return r }
 
